@@ -55,6 +55,11 @@ def r_dense_indep(rep, f):
         stat_roots = {l["pat"]["id"] for l in tast.find(f.body(fn)["body"], lambda z: z.get("k") == "Let" and z["pat"].get("k") == "PBind"
                                                        and z["pat"].get("ty") in ("methods::Evals", "methods::Steps"))}
         carried = [k for k in hk.pre_state if not any(k == r or k.startswith(r + ".") for r in stat_roots)]
+        # the stepper's configuration is read through `&self`: it cannot change, whatever a branch condition taught the
+        # interpreter about it on one side of a join (a test of `self.dense_output && ..` refines the field's value there)
+        p0 = (f.body(fn).get("params") or [{}])[0]
+        if (p0.get("ty") or "").startswith("&") and not (p0.get("ty") or "").startswith("&mut"):
+            carried = [k for k in carried if not str(sx.names.get(k, k)).startswith("self.")]
         bad = []
         n = 0
         for L in hk.latch:
